@@ -64,6 +64,28 @@ pub const LINES_3: LineAlphabet = LineAlphabet {
 	],
 };
 
+/// odd-but-legal values on the reading side: names that are the tag letters of the format, names equal in both
+/// namespaces, a namespace called `tiny`, a comment that is a tag letter, an escaped tab, the empty comment
+pub const LINES_ODD: LineAlphabet = LineAlphabet {
+	label: "N=2 odd values",
+	header: "tiny\t2\t0\tc\ttiny",
+	namespaces: 2,
+	lines: &[
+		"c\tc\tc",
+		"c\tf\tm",
+		"c\ttiny\t2",
+		"\tf\tI\tf\tf",
+		"\tf\tI\tc\tp",
+		"\tm\t()V\tm\tm",
+		"\tm\t()V\tc\t",
+		"\t\tp\t0\tp\tp",
+		"\t\tp\t1\t\tc",
+		"\tc\tc",
+		"\t\tc\tc\\tc",
+		"\t\t\tc\t",
+	],
+};
+
 fn real_read(n: usize, bytes: &[u8]) -> Result<Result<Result<MSet, mapmodel::KeyMismatch>, String>, vcore::Panic> {
 	vcore::guard(|| match n {
 		2 => quill::tiny_v2::read::<2, ()>(&mut &bytes[..]).map(|q: Mappings<2, ()>| mapmodel::from_quill(&q)).map_err(|e| format!("{e:#}")),
